@@ -49,6 +49,34 @@ theorem failure_surfaces (configCpus cpus : Nat) (f : α → Except ε β) (args
     rw [hfa] at hb
     cases hb
 
+/-- when the failing calls cannot be told apart by their error (in particular: a single failing
+    call), the parallel outcome IS the sequential outcome; with several distinct errors the one
+    re-raised depends on the completion order (see the examples below) — the property only asks
+    for "an error" -/
+theorem unambiguous_failure_eq_sequential (configCpus cpus : Nat) (f : α → Except ε β) (args : List α)
+    (hasTimeout : Bool) (sched rest : List Event)
+    (hk : 2 ≤ resolveCpus configCpus cpus)
+    (hc : Complete (numChunks args.length (resolveCpus configCpus cpus)) sched)
+    (e : ε) (hfail : ∃ a ∈ args, f a = .error e)
+    (hsame : ∀ a ∈ args, ∀ e', f a = .error e' → e' = e) :
+    parallelFunction configCpus f args cpus hasTimeout (sched ++ rest) = sequentialOutcome f args := by
+  obtain ⟨a, ha, hfa⟩ := hfail
+  obtain ⟨e₁, hpar, a₁, ha₁, hfa₁⟩ :=
+    failure_surfaces configCpus cpus f args hasTimeout sched rest hk hc ⟨a, ha, e, hfa⟩
+  have he₁ : e₁ = e := hsame a₁ ha₁ e₁ hfa₁
+  rw [hpar, he₁]
+  unfold sequentialOutcome
+  cases hseq : sequential f args with
+  | ok l =>
+    rw [← comprehension_eq_sequential] at hseq
+    obtain ⟨b, hb⟩ := comprehension_ok_all f args l hseq a ha
+    rw [hfa] at hb
+    cases hb
+  | error e₂ =>
+    rw [← comprehension_eq_sequential] at hseq
+    obtain ⟨a₂, ha₂, hfa₂⟩ := comprehension_error_mem f args e₂ hseq
+    rw [hsame a₂ ha₂ e₂ hfa₂]
+
 /-- a deadline that passes while work is outstanding surfaces as the time-out error, whatever
     completed before it (in whatever order) and whatever happens after it -/
 theorem timeout_surfaces (configCpus cpus : Nat) (f : α → Except ε β) (args : List α)
@@ -168,15 +196,24 @@ theorem never_partial_list (configCpus cpus : Nat) (f : α → Except ε β) (ar
           | ok l => rw [hseq] at hspec; simp at hspec; exact ⟨l, rfl, hspec⟩
           | error e => rw [hseq] at hspec; simp at hspec
 
-/-- **the process boundary**: if pickling is faithful on the arguments, results and exceptions
-    involved (unpickle ∘ pickle = identity — what the harness checks for real `Record`s), running
-    the calls in worker processes is indistinguishable from running them on the caller's objects;
-    every theorem above then holds with the boundary in place -/
-theorem faithful_pickling_invisible (pa : α → α) (pb : β → β) (pe : ε → ε)
-    (ha : ∀ a, pa a = a) (hb : ∀ b, pb b = b) (he : ∀ e, pe e = e)
-    (configCpus cpus : Nat) (f : α → Except ε β) (args : List α) (hasTimeout : Bool) (evs : List Event) :
+/-- The full statement about real worker processes — "every theorem above holds with the process
+    boundary in place, for all arguments, results and exceptions" — is NOT provable: it is false
+    for values that do not survive pickling (known finding KF-C18-unreconstructible-exception,
+    negation witness below), and pickling itself is CPython's, not modelled. -/
+def ProcessBoundaryInvisible (pa : α → α) (pb : β → β) (pe : ε → ε) : Prop :=
+  ∀ (configCpus cpus : Nat) (f : α → Except ε β) (args : List α) (hasTimeout : Bool) (evs : List Event),
     parallelFunctionWire pa pb pe configCpus f args cpus hasTimeout evs =
-      parallelFunction configCpus f args cpus hasTimeout evs := by
+      parallelFunction configCpus f args cpus hasTimeout evs
+
+/-- **the process boundary** (partial: under the hypothesis that pickling is faithful on the
+    arguments, results and exceptions involved, unpickle ∘ pickle = identity — which is what the
+    harness checks for real `Record`s): running the calls in worker processes is
+    indistinguishable from running them on the caller's objects, so every theorem above holds
+    with the boundary in place -/
+theorem faithful_pickling_invisible_partial (pa : α → α) (pb : β → β) (pe : ε → ε)
+    (ha : ∀ a, pa a = a) (hb : ∀ b, pb b = b) (he : ∀ e, pe e = e)
+    : ProcessBoundaryInvisible pa pb pe := by
+  intro configCpus cpus f args hasTimeout evs
   have : overWire pa pb pe f = f := by
     funext a
     simp only [overWire, ha]
@@ -194,6 +231,17 @@ example : parallelFunctionWire id (fun (p : Nat × Nat) => (p.1, 0)) id 1
     [.done 2, .done 1, .done 0] = .returned [some (1, 0), some (2, 0), some (3, 0)] := by decide
 example : sequentialOutcome (fun (n : Nat) => (Except.ok (n, n) : Except String (Nat × Nat))) [1, 2, 3] =
     .returned [some (1, 1), some (2, 2), some (3, 3)] := by decide
+/-- the boundary is *visible* for an unfaithful pickle: `ProcessBoundaryInvisible` fails -/
+example : ¬ ProcessBoundaryInvisible (α := Nat) (ε := String) id (fun (p : Nat × Nat) => (p.1, 0)) id := by
+  intro h
+  have := h 1 2 (fun (n : Nat) => (Except.ok (n, n) : Except String (Nat × Nat))) [1] false [.done 0]
+  revert this
+  decide
+/-- negation witness for KF-C18-unreconstructible-exception: CPython's result-handler thread dies
+    while unpickling the exception of chunk 1, so no later completion ever reaches the parent —
+    the event list ends after chunk 0 — and the call blocks instead of raising -/
+example : parallelFunction 1 (fun (n : Nat) => if n = 2 then Except.error "Unreconstructible" else Except.ok n)
+    [1, 2, 3] 2 false [.done 0] = (.blocked : Outcome String Nat) := by decide
 /-- a valid but incomplete and interrupted event list -/
 example : Valid 5 [.done 4, .timeout, .done 0, .died 1] := by
   refine ⟨by decide, by decide⟩
